@@ -93,7 +93,11 @@ pub fn run_bisync(
 
     let host = host_id();
     // Start from the trusted base and mutate to the new common state as we apply.
+    // A path that is gone from BOTH sides has no common state any more: keeping its
+    // entry would make a later re-creation of the same content look like "unchanged
+    // since the base, deleted on the other side" and delete the new file.
     let mut common = base;
+    common.retain(|p, _| a.contains_key(p) || b.contains_key(p));
     let mut conflict_paths: Vec<PathBuf> = Vec::new();
     for (path, act) in &plan {
         apply(
